@@ -457,6 +457,9 @@ inductive PyVal where
   | date (iso : List Nat)                  -- datetime.date / datetime.datetime; `iso` = o.isoformat()
   | time (iso : List Nat)                  -- naive datetime.time; `iso` = o.isoformat()
   | timeTz                                 -- datetime.time with tzinfo: refused by orjson itself
+  | isoSub (iso : List Nat)                -- instance of a user SUBCLASS of date / datetime / time (naive or aware): orjson
+                                           -- serialises only the exact classes itself and hands these to `default`;
+                                           -- `iso` = o.isoformat()
   | set (xs : List PyVal)                  -- set; `xs` = list(o), in the set's iteration order
   | complex (re im : List Nat)             -- float tokens of o.real, o.imag
   | custom (payload : PyVal)               -- instance of a class only the caller's default knows; it returns `payload`
@@ -486,6 +489,7 @@ def lower (ext : Bool) : PyVal → Except EncErr JVal
   | .date iso => .ok (.str iso)
   | .time iso => .ok (.str iso)
   | .timeTz => .error .timeTz
+  | .isoSub iso => .ok (.str iso)          -- json_default: isinstance(o, date) / isinstance(o, time) -> o.isoformat()
   | .set xs => match lowerList ext xs with
     | .ok ys => .ok (.arr ys)
     | .error e => .error e
@@ -512,8 +516,9 @@ end
 mutual
 /-- What the objects are to a caller's `json_default` that does NOT end by calling
 `eliot.json.json_default` (it knows its own `custom` objects and raises `TypeError` otherwise):
-paths, sets and complex numbers are then unsupported objects.  Dates and times are unaffected:
-orjson serialises them itself and never hands them to `default`.
+paths, sets, complex numbers and instances of subclasses of date / datetime / time are then
+unsupported objects.  Exact dates and times are unaffected: orjson serialises them itself and never
+hands them to `default`.
 `lower true (ownView o)` is the traversal under such a function. -/
 def ownView : PyVal → PyVal
   | .null => .null
@@ -527,6 +532,7 @@ def ownView : PyVal → PyVal
   | .date iso => .date iso
   | .time iso => .time iso
   | .timeTz => .timeTz
+  | .isoSub _ => .unsupported
   | .set _ => .unsupported
   | .complex _ _ => .unsupported
   | .custom p => .custom (ownView p)
